@@ -10,6 +10,13 @@ one u64[2] key column with values above 2^32) ALL pairs of tables with 0..3 live
 anywhere, junk in null rows, keys from a 3-element domain that contains the all-zero key, so that disjoint / partial /
 full overlaps all occur), x 4 join types x unmasked / masked (masked: additionally every live row with its key masked
 out or not); plus sampled tables up to 8 rows from a larger key domain.
+
+Key-header pairing family (MULTI): 2 and 3 key columns (equal types u8 x u8, where a wrong pairing of the key columns makes
+spurious matches; mixed u16 x bit[2] x u16), for EVERY pairing of the sorted first-table key headers with the sorted
+second-table key headers (all k! permutations; header names distinct in the two tables, or the same names crossed over),
+the same exhaustive row patterns; the position of null / key / payload columns in both tables is shuffled per case, so
+that pairing order, header-name order and table-column order of the key columns are mutually independent.  Masked variant:
+rows with only SOME key entries masked out.  A few of these table pairs also go through the compiled join.
 """
 import itertools, random
 from . import lib
@@ -39,6 +46,52 @@ CONFIGS = {
         "pay": {"ba": ("b", []), "bb": ("i64", [1])},
     },
 }
+# key-header pairing family: key column i has type ktypes[i]; names are assigned by multi_cfg()
+MULTI = {
+    "u8u8": {
+        "ktypes": [("u8", []), ("u8", [])],
+        "dom": [([0], [0]), ([1], [2]), ([2], [1])],
+        "more": [([1], [1]), ([2], [2]), ([0], [1]), ([1], [0]), ([255], [7]), ([7], [255]), ([3], [3])],
+        "pay": {"va": ("i32", []), "vb": ("u16", [2])}, "payA": "va", "payB": "vb",
+    },
+    "u16b2u16": {
+        "ktypes": [("u16", []), ("b", [2]), ("u16", [])],
+        "dom": [([0], [0, 0], [0]), ([1], [0, 1], [2]), ([2], [1, 0], [1])],
+        "more": [([2], [0, 1], [1]), ([1], [1, 0], [2]), ([1], [0, 1], [1]), ([0], [0, 1], [0]), ([65535], [1, 1], [0]),
+                 ([0], [1, 1], [65535]), ([1], [0, 0], [0])],
+        "pay": {"pa": ("u64", []), "pb": ("u8", [])}, "payA": "pa", "payB": "pb",
+    },
+}
+ANAMES, BNAMES = ["ka", "kb", "kc"], ["ja", "jb", "jc"]
+
+
+def namings(k, styles=("distinct", "crossed")):
+    """every pairing of the (sorted) first-table key headers with the (sorted) second-table key headers"""
+    return [(perm, st) for perm in itertools.permutations(range(k)) for st in styles]
+
+
+def multi_cfg(base, perm, style):
+    """key column i: header ANAMES[i] in the first table, paired with the perm[i]-th of the second table's key headers
+    (distinct: ja jb jc; crossed: the first table's names, permuted; partial: the first name shared, the others distinct)"""
+    k = len(base["ktypes"])
+    bn = {"distinct": BNAMES, "crossed": ANAMES, "partial": ANAMES[:1] + BNAMES[1:]}[style][:k]
+    keys = [(ANAMES[i], bn[perm[i]], base["ktypes"][i][0], base["ktypes"][i][1]) for i in range(k)]
+    cfg = {"keys": keys, "dom": base["dom"], "more": base["more"], "pay": base["pay"], "partial_masks": True}
+    # default column orders (compiled cases; null is never first in A, see the recorded column-order finding)
+    cfg["A"] = [keys[-1][0], "null"] + [x[0] for x in keys[:-1]] + [base["payA"]]
+    cfg["B"] = ["null", base["payB"]] + sorted(x[1] for x in keys)
+    cfg["B2"] = cfg["B"][1:] + ["null"]
+    return cfg
+
+
+def shuffled_names(cfg, rnd):
+    """column orders of both tables: null / key / payload columns anywhere"""
+    a, b = list(cfg["A"]), list(cfg["B"])
+    rnd.shuffle(a)
+    rnd.shuffle(b)
+    return a, b
+
+
 BITS = {"b": 1, "u8": 8, "i8": 8, "u16": 16, "i16": 16, "u32": 32, "i32": 32, "u64": 64, "i64": 64}
 
 
@@ -61,10 +114,17 @@ def patterns(n, ndom, masked, max_live=3):
     return out
 
 
-def build_table(cfg, side, pat, masked, rnd, dom, alt=False):
+def build_table(cfg, side, pat, masked, rnd, dom, alt=False, names=None):
     """side 0 = first table (A), 1 = second (B).  Live rows get the key of the pattern; null rows and masked entries get junk."""
     n = len(pat)
-    names = cfg["A"] if side == 0 else (cfg["B2"] if alt else cfg["B"])
+    names = names or (cfg["A"] if side == 0 else (cfg["B2"] if alt else cfg["B"]))
+    # masked-out rows: all key entries, or (partial_masks) a non-empty subset of them - the others carry a live key
+    nk = len(cfg["keys"])
+    drop = {}
+    for r, p in enumerate(pat):
+        if p == "m":
+            sub = [i for i in range(nk) if rnd.randint(0, 1)] if cfg.get("partial_masks") else []
+            drop[r] = sub or list(range(nk))
     keycols = {(k[0] if side == 0 else k[1]): (i, k[2], k[3]) for i, k in enumerate(cfg["keys"])}
     cols = []
     alldom = cfg["dom"] + cfg["more"]
@@ -75,13 +135,13 @@ def build_table(cfg, side, pat, masked, rnd, dom, alt=False):
         if nm in keycols:
             ki, st, rs = keycols[nm]
             vals, mask = [], []
-            for p in pat:
+            for r, p in enumerate(pat):
                 if isinstance(p, int):
                     vals += dom[p][ki]
                     mask.append(1)
                 elif p == "m":
-                    vals += rnd.choice(alldom)[ki]          # whatever: no content
-                    mask.append(0)
+                    vals += rnd.choice(alldom)[ki]          # whatever: no content (or the rest of a key that is incomplete)
+                    mask.append(0 if ki in drop[r] else 1)
                 else:
                     vals += rnd.choice(alldom)[ki]          # junk in a null row (may duplicate a live key)
                     mask.append(rnd.randint(0, 1))
@@ -143,9 +203,61 @@ def run(chk):
                                  "B": build_table(cfg, 1, pb, masked, rnd, cfg["dom"], alt=True)})
                             cnt += 1
             claims.append({"grp": grp, "what": "count", "n": min(2, nmax), "b": 3, "count": cnt})
+    # key-header pairing family: every pairing of the key headers x exhaustive row patterns, column positions shuffled
+    rnd2 = random.Random(chk.seed * 7 + 1919)
+    mplan = {  # (slot pairs unmasked, slot pairs masked, header-name styles)
+        "u8u8": ([(a, b) for a in (1, 2) for b in (1, 2)], [(1, 1), (1, 2), (2, 1)], ("distinct", "crossed")),
+        "u16b2u16": ([(a, b) for a in (1, 2) for b in (1, 2)], [(1, 1), (1, 2), (2, 1)], ("alternate",)),
+    } if quick else {
+        "u8u8": ([(a, b) for a in (1, 2, 3) for b in (1, 2, 3)], [(a, b) for a in (1, 2) for b in (1, 2)], ("distinct", "crossed", "partial")),
+        "u16b2u16": ([(a, b) for a in (1, 2, 3) for b in (1, 2, 3)], [(a, b) for a in (1, 2) for b in (1, 2)], ("distinct", "crossed", "partial")),
+    }
+    multi_cfgs = []
+    for mname, base in MULTI.items():
+        k = len(base["ktypes"])
+        styles = mplan[mname][2]
+        if styles == ("alternate",):     # quick: all k! pairings, header-name style alternating
+            nms = [(perm, ("distinct", "crossed")[i % 2]) for i, perm in enumerate(itertools.permutations(range(k)))]
+        else:
+            nms = namings(k, styles)
+        for perm, style in nms:
+            cfg = multi_cfg(base, perm, style)
+            multi_cfgs.append((mname, perm, style, cfg))
+            for masked in (0, 1):
+                grp = "join-%s-pair%s-%s-%s" % (mname, "".join(str(x) for x in perm), style, "masked" if masked else "plain")
+                cnt = 0
+                for n0, n1 in mplan[mname][masked]:
+                    for pa in patterns(n0, 3, masked):
+                        for pb in patterns(n1, 3, masked):
+                            na, nb = shuffled_names(cfg, rnd2)
+                            add({"kind": "join", "grp": grp, "masked": masked, "headers": headers(cfg),
+                                 "A": build_table(cfg, 0, pa, masked, rnd2, cfg["dom"], names=na),
+                                 "B": build_table(cfg, 1, pb, masked, rnd2, cfg["dom"], names=nb)})
+                            cnt += 1
+                claims.append({"grp": grp, "what": "count", "n": max(x for x, _ in mplan[mname][masked]), "b": 3, "count": cnt})
     # sampled: up to 4 slots from the small domain, up to 8 rows from the larger domain
     nsamp = 800 if quick else 20000
     for s in range(nsamp):
+        if s % 4 == 3:       # key-header pairing family: random pairing, header style, column positions
+            mname = rnd2.choice(list(MULTI))
+            k = len(MULTI[mname]["ktypes"])
+            cfg = multi_cfg(MULTI[mname], rnd2.choice(list(itertools.permutations(range(k)))), rnd2.choice(("distinct", "crossed", "partial")))
+            masked = rnd2.randint(0, 1)
+            big = s % 8 == 3
+            dom = (cfg["dom"] + cfg["more"]) if big else cfg["dom"]
+            tabs = []
+            nms = shuffled_names(cfg, rnd2)
+            for side in (0, 1):
+                n = rnd2.randint(1, 8) if big else rnd2.randint(3, 4)
+                ks = list(range(len(dom)))
+                rnd2.shuffle(ks)
+                pat = []
+                for r in range(n):
+                    x = rnd2.random()
+                    pat.append("d" if x < 0.25 or not ks and not (masked and x < 0.4) else "m" if masked and x < 0.4 else ks.pop())
+                tabs.append(build_table(cfg, side, tuple(pat), masked, rnd2, dom, names=nms[side]))
+            add({"kind": "join", "grp": "join-sampled-pairing", "masked": masked, "headers": headers(cfg), "A": tabs[0], "B": tabs[1]})
+            continue
         cname = rnd.choice(list(CONFIGS))
         cfg = CONFIGS[cname]
         masked = rnd.randint(0, 1)
@@ -200,6 +312,29 @@ def run(chk):
         for k in range(nseeds):
             add({"kind": "join", "grp": "join-compiled", "masked": masked, "headers": headers(cfg), "A": tabs[0], "B": tabs[1],
                  "compiled": chk.seed % 1000 + 1000 * s + k})
+    # ... and table pairs of the key-header pairing family (pairings other than the identity first)
+    mcomp, mseeds = (2, 12) if quick else (12, 100)
+    order = sorted(multi_cfgs, key=lambda m: (m[1] == tuple(range(len(m[1]))), m[2] != "crossed"))
+    picked = [[m for m in order if m[0] == mname] for mname in MULTI]
+    for s in range(mcomp):
+        fam = picked[s % len(picked)]
+        mname, perm, style, cfg = fam[(s // len(picked)) % len(fam)]
+        masked = (s // len(picked) + s) % 2
+        dom = cfg["dom"] + cfg["more"]
+        common = list(range(len(dom)))
+        comp_rnd.shuffle(common)
+        tabs = []
+        for side in (0, 1):
+            ks = list(common)
+            pat = []
+            for r in range(6):
+                x = comp_rnd.random()
+                pat.append("d" if x < 0.1 or not ks and not (masked and x < 0.25) else "m" if masked and x < 0.25 else ks.pop())
+            comp_rnd.shuffle(pat)
+            tabs.append(build_table(cfg, side, tuple(pat), masked, comp_rnd, dom))
+        for k in range(mseeds):
+            add({"kind": "join", "grp": "join-compiled-pairing", "masked": masked, "headers": headers(cfg), "A": tabs[0], "B": tabs[1],
+                 "compiled": chk.seed % 1000 + 1000 * (ncomp + s) + k})
     add({"kind": "claims", "grp": "claims", "claims": claims})
 
     recs, bad = bc.run_rel(chk, jobs, "join", workers=bc.workers(4 if quick else 8), timeout=1500 if quick else 9000)
